@@ -26,7 +26,7 @@ import DigModel.DotOut
     `C19_model_text_is_valid_dot` (for the model's own text, `strconv.Quote` on printable ASCII),
     `C19_one_subgraph_per_drawn_constructor`, `C19_edge_dashed_iff_optional`, `C19_group_node_links_each_member`.
   Value-group nodes and the whole structure including pruning are compared with the real Visualize output on every
-  explored program by the K-dot correspondence; the text byte for byte by K-dottext.
+  explored program by the K-dot correspondence; the text, read as a DOT document, by K-dottext.
 -/
 namespace Dig.C19
 
